@@ -258,12 +258,17 @@ func checkDelegations(c *core.Ctx, t *fnTable, ids map[string]int64, table []del
 		}
 		re := regexp.MustCompile(dl.want)
 		bad := ""
+		okRes := 0
 		for _, r := range res {
+			if r.cls == "err" && strings.Contains(dl.want, "floatToInt") {
+				continue // the range-checked conversion (F2I) rejects floats no integer can hold
+			}
+			okRes++
 			if r.cls != dl.cls || !re.MatchString(r.payload) {
 				bad = fmt.Sprintf("returns %s(%s); expected %s matching %s", r.cls, r.payload, dl.cls, dl.want)
 			}
 		}
-		c.Decide(bad == "" && len(res) > 0, rule, key, d.Function.Pos(), len(res), dl.want, bad)
+		c.Decide(bad == "" && okRes > 0, rule, key, d.Function.Pos(), len(res), dl.want, bad)
 	}
 	// abs(Int): sign cases
 	if rule == "TAB2" && len(table) > 0 && table[0].name == "abs" {
